@@ -14,8 +14,10 @@ series.  With `C02.idx_spec` this gives the property's statement for the regener
 (`*_calls`): one callback per position, in increasing order, written at its own position, with
 the element at `i - w + 1` reported as removed once `i ≥ w - 1` (for the clamped window).  The
 closures run over these callbacks are the subject of `C01Gen`, `C03Gen`, `C04Gen`.
-Not translated: the default (iterator) bodies `rolling_apply`, `rolling2_apply`, …,
-`rolling_custom_iter` (model `iterIdx`), tied by the correspondence run.
+The default (iterator) bodies `rolling_apply`, `rolling2_apply`, `rolling_apply_idx`,
+`rolling2_apply_idx`, `rolling_custom_iter` are translated too (second part of this file) and
+proved equal to `iterIdx`.  Not translated: the backend overrides in backends_impl (they call the
+`*_to` drivers on a fresh buffer) and `rolling2_custom`.
 -/
 set_option linter.unusedSimpArgs false
 namespace Tv.C02Gen
@@ -139,6 +141,87 @@ theorem rolling_apply_to_safe (len w : Nat) (hw : 1 ≤ w) :
   split at hs
   · injection hs with hs; omega
   · cases hs
+
+/-! ## the default (iterator) bodies — the returned path of backends without a `*_to` override
+
+`GenDrv.rolling_apply.run` … `rolling_custom_iter.run` are the `else` branches of the default
+methods (the `if let Some(out) = out` branch delegates to the `*_to` driver above, which the
+translator checks), with an iterator read as the list of the items it yields and an element of
+`self.titer()` represented by its index.  Each is exactly the model's `iterIdx len window`
+(`Shape.iter`).  `rolling_custom_iter` has no `assert!`: `window - 1` at `window = 0` underflows in
+the real code (outside the generated semantics: truncated subtraction), hence `1 ≤ w`. -/
+
+theorem map_pair_id {α β : Type} (l : List (α × β)) : (l.map fun (p : α × β) => match p with | (a, b) => (a, b)) = l := by
+  induction l with
+  | nil => rfl
+  | cons x l ih => obtain ⟨a, b⟩ := x; simp [ih]
+
+theorem rolling_apply_iter_eq (len w : Nat) (hw : 1 ≤ w) :
+    GenDrv.rolling_apply.run len w = some (iterIdx len w) := by
+  have : decide (w > 0) = true := by simp; omega
+  simp only [GenDrv.rolling_apply.run, this, Bool.not_true, Bool.false_eq_true, if_false, iterIdx]
+  congr 1
+  exact map_pair_id _
+
+theorem rolling_apply_iter_panics (len : Nat) : GenDrv.rolling_apply.run len 0 = none := by
+  simp [GenDrv.rolling_apply.run]
+
+theorem rolling2_apply_iter_eq (len w : Nat) (hw : 1 ≤ w) :
+    GenDrv.rolling2_apply.run len len w = some ((iterIdx len w).map fun p => (p.1.map (fun s => (s, s)), (p.2, p.2))) := by
+  have : decide (w > 0) = true := by simp; omega
+  simp only [GenDrv.rolling2_apply.run, this, Bool.not_true, Bool.false_eq_true, if_false, iterIdx]
+  have hz : (List.range len).zip (List.range len) = (List.range len).map fun i => (i, i) := by
+    generalize List.range len = l
+    induction l with
+    | nil => rfl
+    | cons x l ih => simp [ih]
+  have ha : List.replicate (w - 1) (none : Option (Nat × Nat)) ++ List.map some ((List.range len).map fun i => (i, i))
+      = (List.replicate (w - 1) none ++ List.map some (List.range len)).map (Option.map fun s => (s, s)) := by
+    simp [List.map_append, List.map_replicate, List.map_map, Function.comp_def]
+  rw [hz, ha, List.zip_map]
+  simp [List.map_map, Function.comp_def]
+
+theorem rolling_apply_idx_iter_eq (len w : Nat) (hw : 1 ≤ w) :
+    GenDrv.rolling_apply_idx.run len w = some ((iterIdx len w).map fun p => (p.1, p.2, p.2)) := by
+  have : decide (w > 0) = true := by simp; omega
+  simp only [GenDrv.rolling_apply_idx.run, this, Bool.not_true, Bool.false_eq_true, if_false, iterIdx,
+    Nat.sub_zero, ← List.range_eq_range']
+  congr 1
+  apply List.ext_getElem
+  · simp
+  · intro i h1 h2
+    simp only [List.length_map, List.length_zipIdx, List.length_zip, List.length_range, List.length_append,
+      List.length_replicate] at h1
+    simp [List.getElem_zipIdx]
+
+theorem rolling2_apply_idx_iter_eq (len w : Nat) (hw : 1 ≤ w) :
+    GenDrv.rolling2_apply_idx.run len len w = some ((iterIdx len w).map fun p => (p.1, p.2, (p.2, p.2))) := by
+  have : decide (w > 0) = true := by simp; omega
+  simp only [GenDrv.rolling2_apply_idx.run, this, Bool.not_true, Bool.false_eq_true, if_false, iterIdx,
+    Nat.sub_zero, ← List.range_eq_range']
+  congr 1
+  apply List.ext_getElem
+  · simp
+  · intro i h1 h2
+    simp only [List.length_map, List.length_zipIdx, List.length_zip, List.length_range, List.length_append,
+      List.length_replicate] at h1
+    simp [List.getElem_zipIdx]
+
+/-- `rolling_custom_iter` hands the closure the slice `start.unwrap_or(0) .. end + 1` -/
+theorem rolling_custom_iter_eq (len w : Nat) (hw : 1 ≤ w) :
+    GenDrv.rolling_custom_iter.run len w = some ((iterIdx len w).map fun p => (p.1.getD 0, p.2 + 1)) := by
+  simp only [GenDrv.rolling_custom_iter.run, iterIdx, Nat.sub_zero, Nat.add_sub_cancel, ← List.range_eq_range']
+  congr 1
+  apply List.ext_getElem
+  · simp
+  · intro i h1 h2
+    simp only [List.length_map, List.length_zip, List.length_range, List.length_append, List.length_range',
+      List.length_replicate] at h1
+    simp [List.getElem_append, List.getElem_range']
+    split <;> simp <;> omega
+theorem iterFunctions_present :
+    GenDrv.iterFunctions = ["rolling_apply", "rolling2_apply", "rolling_apply_idx", "rolling2_apply_idx",
+      "rolling_custom_iter"] := rfl
 
 theorem functions_present :
     GenDrv.functions = ["rolling_apply_to", "rolling2_apply_to", "rolling_apply_idx_to", "rolling2_apply_idx_to",
